@@ -1,4 +1,5 @@
 import ChiProofs.Lemmas.SeedsPrior
+import ChiModel.SeedHistory
 /-!
 # C16 — seeds fully determine random results; random streams are independent; generator objects
 are advanced
@@ -226,4 +227,39 @@ theorem C16_generator_rejected_counterexample (spec : PredSpec) (nT n : Nat) (g 
     (priorPredSample legacy spec nT n (.gen g) w).1.2 = .gen g := by
   simp [priorPredSample, legacy]
 
+
+/-! ## histories of calls on ONE object (`ChiModel/SeedHistory.lean`)
+
+The posterior a call of `PosteriorPredictiveModel.sample` draws from is the one of the individual of THAT
+call, whatever individuals the object was asked for before (`C16_history_free`); memoising the sorted
+array is harmless exactly when the memo is keyed by the individual (`_keyed_cache`, `_unkeyed_cache_*`). -/
+
+theorem C16_history_free (first : Nat) (hist : List (Option Nat)) (ind : Option Nat) :
+    rowsAsIs first hist ind = rowsAsIs first [] ind := rfl
+
+theorem C16_history_free_keyed_cache (first : Nat) (hist : List (Option Nat)) (ind : Option Nat) :
+    rowsUsed true first hist ind = rowsAsIs first [] ind := by
+  simp [rowsUsed, cacheStep, rowsAsIs]
+
+theorem C16_history_unkeyed_cache_counterexample :
+    ∃ (first : Nat) (hist : List (Option Nat)) (ind : Option Nat),
+      rowsUsed false first hist ind ≠ rowsUsed false first [] ind :=
+  ⟨0, [some 0], some 1, by decide⟩
+
+theorem runHist_unkeyed_cons (first j : Nat) (cache : List Nat) (hist : List (Option Nat)) :
+    runHist false first hist (j :: cache) = j :: cache := by
+  induction hist with
+  | nil => rfl
+  | cons a rest ih => simpa [runHist, cacheStep] using ih
+
+theorem C16_history_unkeyed_cache_partial (first : Nat) (hist : List (Option Nat)) (ind : Option Nat)
+    (h : ∀ c ∈ hist, effective first c = effective first ind) :
+    rowsUsed false first hist ind = rowsAsIs first [] ind := by
+  cases hist with
+  | nil => simp [rowsUsed, runHist, cacheStep, rowsAsIs]
+  | cons a rest =>
+    have ha := h a (by simp)
+    simp [rowsUsed, runHist, cacheStep, runHist_unkeyed_cons, rowsAsIs, ha]
+
+example : rowsUsed false 0 [some 0] (some 1) = 0 ∧ rowsUsed true 0 [some 0] (some 1) = 1 := by decide
 end ChiModel.Seeds
